@@ -74,3 +74,226 @@ class PipeGateway:
                 self.group._unregister(self.gw)
             self.group._gateways_to_join[:] = []
             atexit.unregister(self.group._cleanup_atexit)
+
+
+# =============================================================================================
+# Scheduler flavour: scripted pipe / socket objects for the real Popen2IO / SocketIO classes
+# =============================================================================================
+
+
+class Chunker:
+    """max number of bytes the next low-level read may return: cycles through a generated list"""
+
+    def __init__(self, sizes=None):
+        self.sizes = list(sizes or [])
+        self.i = 0
+
+    def __call__(self):
+        if not self.sizes:
+            return 1 << 30
+        v = self.sizes[self.i % len(self.sizes)]
+        self.i += 1
+        return max(1, v)
+
+
+class SPipe:
+    """one-directional byte pipe; every read/write is a scheduling point"""
+
+    def __init__(self, sched, chunker=None, name="pipe"):
+        self.s, self.buf, self.wclosed, self.rclosed = sched, bytearray(), False, False
+        self.chunk = chunker or Chunker()
+        self.name = name
+        self.written = 0  # total bytes ever written (wire log for oracles)
+        self.log = bytearray()
+        self.keep_log = False
+        self.cut_after = None  # deliver at most this many bytes in total, then EOF
+        self.delivered = 0
+
+    def read(self, n=-1):
+        self.s.yield_point("pipe.read")
+        self.s.wait_until(lambda: len(self.buf) > 0 or self.wclosed or self.rclosed, None, "pipe.read")
+        if self.rclosed:
+            raise ValueError("read of closed file")
+        k = len(self.buf) if n is None or n < 0 else min(n, len(self.buf))
+        if k:
+            k = max(1, min(k, self.chunk()))
+        data = bytes(self.buf[:k])
+        del self.buf[:k]
+        self.delivered += len(data)
+        return data
+
+    def write(self, data):
+        self.s.yield_point("pipe.write")
+        if self.wclosed:
+            raise ValueError("write to closed file")
+        if self.rclosed:
+            raise BrokenPipeError(32, "Broken pipe")
+        data = bytes(data)
+        self.written += len(data)
+        if self.keep_log:
+            self.log += data
+        if self.cut_after is not None:
+            room = max(0, self.cut_after - (self.written - len(data)))
+            data = data[:room]
+        self.buf += data
+        return len(data)
+
+    def flush(self):
+        if self.wclosed:
+            raise ValueError("flush of closed file")
+        if self.rclosed:
+            raise BrokenPipeError(32, "Broken pipe")
+
+
+class _REnd:
+    def __init__(self, p):
+        self.p, self.read = p, p.read
+        self.closed = False
+
+    def close(self):
+        self.closed = True
+        self.p.rclosed = True
+
+
+class _WEnd:
+    def __init__(self, p):
+        self.p, self.write, self.flush = p, p.write, p.flush
+        self.closed = False
+
+    def close(self):
+        self.closed = True
+        self.p.wclosed = True
+
+
+class SSocket:
+    """one end of a scripted stream socket pair for the real SocketIO: recv is partial, sendall is a
+    loop of partial sends with a scheduling point in between (what CPython does with the GIL released)"""
+
+    def __init__(self, sched, rx, tx, send_chunker=None):
+        self.s, self.rx, self.tx = sched, rx, tx
+        self.send_chunk = send_chunker or Chunker()
+
+    def setsockopt(self, *a):
+        pass
+
+    def recv(self, n):
+        p = self.rx
+        self.s.yield_point("sock.recv")
+        self.s.wait_until(lambda: len(p.buf) > 0 or p.wclosed or p.rclosed, None, "sock.recv")
+        if p.rclosed:
+            return b""
+        k = min(n, len(p.buf))
+        if k:
+            k = max(1, min(k, p.chunk()))
+        data = bytes(p.buf[:k])
+        del p.buf[:k]
+        p.delivered += len(data)
+        return data
+
+    def send(self, data):
+        p = self.tx
+        self.s.yield_point("sock.send")
+        if p.wclosed or p.rclosed:
+            raise BrokenPipeError(32, "Broken pipe")
+        k = max(1, min(len(data), self.send_chunk())) if data else 0
+        chunk = bytes(data[:k])
+        p.written += len(chunk)
+        if p.keep_log:
+            p.log += chunk
+        if p.cut_after is not None:
+            room = max(0, p.cut_after - (p.written - len(chunk)))
+            chunk = chunk[:room]
+        p.buf += chunk
+        return k
+
+    def sendall(self, data):
+        data = memoryview(bytes(data))
+        while len(data):
+            k = self.send(data)
+            data = data[k:]
+
+    def shutdown(self, how):
+        if how in (0, 2):
+            self.rx.rclosed = True
+        if how in (1, 2):
+            self.tx.wclosed = True
+
+    def close(self):
+        self.shutdown(2)
+
+
+def io_pair(sched, em_a, em_b, transport="pipe", chunks_ab=None, chunks_ba=None, send_chunks=None):
+    """-> (io_a, io_b, pipe_ab, pipe_ba): real Popen2IO / SocketIO objects over scripted transports"""
+    tree.use()
+    from execnet import gateway_base as gb
+
+    ab = SPipe(sched, Chunker(chunks_ab), "a->b")
+    ba = SPipe(sched, Chunker(chunks_ba), "b->a")
+    if transport == "pipe":
+        io_a = gb.Popen2IO(_WEnd(ab), _REnd(ba), em_a)
+        io_b = gb.Popen2IO(_WEnd(ba), _REnd(ab), em_b)
+        io_a.wait = io_b.wait = lambda: 0
+        io_a.kill = io_b.kill = lambda: None
+    elif transport == "socket":
+        from execnet.gateway_socket import SocketIO
+
+        io_a = SocketIO(SSocket(sched, ba, ab, Chunker(send_chunks)), em_a)
+        io_b = SocketIO(SSocket(sched, ab, ba, Chunker(send_chunks)), em_b)
+    else:
+        raise ValueError(transport)
+    return io_a, io_b, ab, ba
+
+
+class InprocPair:
+    """Both ends of a gateway inside this process on the deterministic scheduler:
+    ``Gateway(io_a, spec)`` for the initiator and a managed thread running
+    ``WorkerGateway(io_b, id, _startcount=2).serve()`` - the calls makegateway()/serve() make."""
+
+    def __init__(self, sched, backend_a="thread", backend_b="thread", transport="pipe", chunks_ab=None,
+                 chunks_ba=None, send_chunks=None, gid="gwx"):
+        from . import detsched
+
+        tree.use()
+        from execnet import gateway_base as gb
+
+        self.sched = sched
+        self.em_a = detsched.make_execmodel(sched, backend_a)
+        self.em_b = detsched.make_execmodel(sched, backend_b)
+        self.io_a, self.io_b, self.ab, self.ba = io_pair(sched, self.em_a, self.em_b, transport, chunks_ab, chunks_ba,
+                                                         send_chunks)
+        self.gid = gid
+        self.gw = None
+        self.worker = gb.WorkerGateway(io=self.io_b, id=gid + "-worker", _startcount=2)
+        self.worker_thread = None
+
+    def start_worker(self):
+        self.worker_thread = self.sched.spawn(self.worker.serve, name="worker-main")
+
+    def make_gateway(self, group=None):
+        """must be called from a managed thread (Gateway.__init__ spawns the receiver thread)"""
+        from execnet.gateway import Gateway
+        from execnet.xspec import XSpec
+
+        self.gw = Gateway(self.io_a, XSpec("popen//id=" + self.gid))
+        if group is not None:
+            group._register(self.gw)
+        return self.gw
+
+
+class FakeGroup:
+    """minimal stand-in for multi.Group for in-process gateways (Gateway.exit() needs _group)"""
+
+    def __init__(self):
+        self._gateways = []
+        self._gateways_to_join = []
+
+    def __contains__(self, gw):
+        return gw in self._gateways
+
+    def _register(self, gw):
+        self._gateways.append(gw)
+        gw._group = self
+
+    def _unregister(self, gw):
+        self._gateways.remove(gw)
+        self._gateways_to_join.append(gw)
